@@ -90,7 +90,7 @@ impl<E: Executor> Pool<E> {
                             #[cfg(feature = "tracing")]
                             let mut created = 0;
                             for _ in count..(min_idle as usize) {
-                                let conn = match pool.client.connection().await {
+                                let mut conn = match pool.client.connection().await {
                                     Ok(conn) => conn,
                                     Err(err) => {
                                         #[cfg(feature = "tracing")]
@@ -104,13 +104,21 @@ impl<E: Executor> Pool<E> {
 
                                 #[cfg(feature = "verif-hooks")]
                                 crate::verif_hooks::point("maint.push.lock");
-                                let mut connections = pool.connections.lock().await;
-                                let Some(connections) = connections.as_mut() else {
+                                let mut connections_guard = pool.connections.lock().await;
+                                let Some(connections) = connections_guard.as_mut() else {
                                     // The transport was shut down
                                     return;
                                 };
 
+                                if connections.len() >= pool.config.max_size as usize {
+                                    // The pool is full, min_idle can't be reached
+                                    drop(connections_guard);
+                                    conn.abort().await;
+                                    break;
+                                }
+
                                 connections.push(ParkedConnection::park(conn));
+                                drop(connections_guard);
 
                                 #[cfg(feature = "tracing")]
                                 {
